@@ -15,14 +15,14 @@ CONSTANTS
   Routes = {"msg"}
   Reqs = {1}
   MaxLeases = 1
-  Zones <- ZonesQ
-  Parent <- ParentQ
+  Zones <- ZonesOne
+  Parent <- ParentOne
   DTTLs = {3, 7}
   Ceil = 4
   ProvCap = 2
-  MaxVer = 2
-  MaxPubOps = 1
-  PubInits <- PubInitsQ
+  MaxVer = 1
+  MaxPubOps = 0
+  PubInits <- PubInitsOne
   Res = {1, 2}
 SPECIFICATION SpecDeleg
 VIEW ViewD
